@@ -115,7 +115,7 @@ func (in *InExpr) Eval(input []reflect.Value, isVariadic bool) (bool, error) {
 outer:
 	for _, one := range in.expressions {
 		if len(input) != len(one) {
-			return false, nil
+			continue
 		}
 		for i, param := range one {
 			v, err := param.Eval([]reflect.Value{input[i]}, isVariadic)
